@@ -4,7 +4,35 @@
 //!   pz.raw <target> (21 x none|some(v)) [off]   direct field writes (the fields are pub)
 use crate::val::*;
 use chrono::format::{ParseError, ParseErrorKind, ParseResult, Parsed};
-use chrono::FixedOffset;
+use chrono::{FixedOffset, MappedLocalTime, NaiveDate, NaiveDateTime, TimeZone};
+
+/// A zone with one transition: offset `a` before instant `t` (seconds since the epoch), `b` from
+/// then on.  `to_datetime_with_timezone` on it reaches the Ambiguous / None arms that a fixed offset
+/// never takes.
+#[derive(Clone, Copy, Debug)]
+struct StepZone { t: i64, a: i32, b: i32 }
+impl TimeZone for StepZone {
+    type Offset = FixedOffset;
+    fn from_offset(o: &FixedOffset) -> StepZone { StepZone { t: i64::MIN, a: o.local_minus_utc(), b: o.local_minus_utc() } }
+    #[allow(deprecated)]
+    fn offset_from_local_date(&self, _: &NaiveDate) -> MappedLocalTime<FixedOffset> { MappedLocalTime::None }
+    fn offset_from_local_datetime(&self, l: &NaiveDateTime) -> MappedLocalTime<FixedOffset> {
+        let w = l.and_utc().timestamp();
+        let early = w - (self.a as i64) < self.t;
+        let late = w - (self.b as i64) >= self.t;
+        let fa = FixedOffset::east_opt(self.a).unwrap();
+        let fb = FixedOffset::east_opt(self.b).unwrap();
+        if early && late { MappedLocalTime::Ambiguous(fa, fb) }
+        else if early { MappedLocalTime::Single(fa) }
+        else if late { MappedLocalTime::Single(fb) }
+        else { MappedLocalTime::None }
+    }
+    #[allow(deprecated)]
+    fn offset_from_utc_date(&self, _: &NaiveDate) -> FixedOffset { FixedOffset::east_opt(self.a).unwrap() }
+    fn offset_from_utc_datetime(&self, u: &NaiveDateTime) -> FixedOffset {
+        FixedOffset::east_opt(if u.and_utc().timestamp() < self.t { self.a } else { self.b }).unwrap()
+    }
+}
 
 fn kind_name(e: &ParseError) -> &'static str {
     match e.kind() {
@@ -160,6 +188,17 @@ pub fn dispatch(op: &str, a: &[Val]) -> Option<Val> {
             let p = dec_state(a.get(1)?)?;
             let off = target_off(a)?;
             resolve(target, &p, off)
+        })(),
+        "pz.zone" => (|| {
+            if a.len() != 4 { return None; }
+            let p = dec_state(a.get(0)?)?;
+            let t = a.get(1)?.i64()?;
+            let oa = a.get(2)?.i32()?;
+            let ob = a.get(3)?.i32()?;
+            FixedOffset::east_opt(oa)?;
+            FixedOffset::east_opt(ob)?;
+            let z = StepZone { t, a: oa, b: ob };
+            Some(res(p.to_datetime_with_timezone(&z), |d| enc_dt(&d.fixed_offset())))
         })(),
         _ => return None,
     };
